@@ -29,7 +29,12 @@ impl<'buf, IO: Io> Connection<'_, 'buf, IO> {
             return Err(Error::InvalidRequest);
         }
         // Never start the DISCONNECT in the middle of a partially written packet.
-        self.flush_outbound().await?;
+        if let Err(err) = self.flush_outbound().await {
+            // The caller asked to end the connection; a flush that fails without a transport error
+            // (`WriteZero`) must not leave the handle live.
+            self.handle_disconnect();
+            return Err(err);
+        }
         let mut buffer = [0u8; CONTROL_PACKET_LEN];
         let packet = MqttSerializer::encode(&mut buffer, &disconnect)?;
         self.session.runtime.require_packet_size(packet.len())?;
